@@ -4,27 +4,50 @@ import "strings"
 
 var codecTrusted = []string{"TLC 1.8.0 / SANY", "CommunityModules Json/IOUtils", "protobuf-go v1.34.0 dynamicpb + impl reflection (reference, second opinion on every event)", "harness projection (shifts/masks only)", "Go toolchain"}
 
+func flagIf(bad bool, name string) string {
+	if bad {
+		return name
+	}
+	return ""
+}
+
+func firstFlag(fs ...string) string {
+	for _, f := range fs {
+		if f != "" {
+			return f
+		}
+	}
+	return ""
+}
+
 func init() {
 	register(&Check{ID: "C01", Level: "model_checking", Run: func(c *Ctx) {
 		c.R.Trusted = codecTrusted
+		mcCodecCheck(c, func(v EdgeVerdict) string { return firstFlag(flagIf(!v.RT, "roundtrip"), flagIf(!v.Fast, "fastproj")) })
 		codecTraceRun(c, "rt", 12, 150, func(v CodecVerdict) bool {
 			return v.Ev == "roundtrip" || v.Ev == "load" || strings.HasPrefix(v.Sig, "marshal:error")
 		})
 	}})
 	register(&Check{ID: "C02", Level: "model_checking", Run: func(c *Ctx) {
 		c.R.Trusted = codecTrusted
+		mcCodecCheck(c, func(v EdgeVerdict) string { return flagIf(v.Fresh && !v.Enc, "detbytes") })
 		codecTraceRun(c, "det", 12, 150, func(v CodecVerdict) bool { return v.Ev == "marshal" })
-	}})
-	register(&Check{ID: "C04", Level: "model_checking", Run: func(c *Ctx) {
-		c.R.Trusted = codecTrusted
-		codecTraceRun(c, "size", 12, 150, func(v CodecVerdict) bool { return v.Ev == "size" || v.Ev == "append" })
 	}})
 	register(&Check{ID: "C03", Level: "model_checking", Run: func(c *Ctx) {
 		c.R.Trusted = codecTrusted
+		mcCodecCheck(c, func(v EdgeVerdict) string { return firstFlag(flagIf(!v.Fresh, "decode"), flagIf(!v.Merge, "mergeopt")) })
 		codecTraceRun(c, "xform", 10, 120, func(v CodecVerdict) bool { return v.Ev == "unmarshal" })
+	}})
+	register(&Check{ID: "C04", Level: "model_checking", Run: func(c *Ctx) {
+		c.R.Trusted = codecTrusted
+		mcCodecCheck(c, func(v EdgeVerdict) string { return flagIf(v.Fresh && !v.Size, "size") })
+		codecTraceRun(c, "size", 12, 150, func(v CodecVerdict) bool { return v.Ev == "size" || v.Ev == "append" })
 	}})
 	register(&Check{ID: "C14", Level: "model_checking", Run: func(c *Ctx) {
 		c.R.Trusted = codecTrusted
+		mcCodecCheck(c, func(v EdgeVerdict) string {
+			return firstFlag(flagIf(!v.Disc, "discard"), flagIf(strings.HasPrefix(v.Shape, "unknown") && (!v.Fresh || !v.Merge || !v.Enc), "unknown"))
+		})
 		codecTraceRun(c, "unknown", 10, 120, func(v CodecVerdict) bool { return v.Ev == "unmarshal" || v.Ev == "marshal" })
 	}})
 }
